@@ -232,6 +232,98 @@ theorem setSystemMode_roundtrip (ctl : List Char) (k : String × String) (hk : k
     simp only [Gen.sysModeMap, List.mem_cons, List.not_mem_nil, or_false] at hk
     rcases hk with h | h | h | h | h | h | h | h <;> subst h <;> revert hguard <;> decide
 
+/-! ### W|1F41: DHW mode -/
+
+def activeHex : Option Bool → List Char
+  | none => "FF".toList
+  | some true => "01".toList
+  | some false => "00".toList
+
+def activeJson : Option Bool → Dict
+  | none => []
+  | some b => [("active", .bool b)]
+
+/-- `parser_1f41` on `<idx><active><mode>FFFFFF[<until>]` -/
+theorem p1F41_of_parts (f : Frame) (i : List Char) (hi : i.length = 2) (act : Option Bool) (k : String × String)
+    (hk : k ∈ Gen.zonModeMap) (untl : Option DateTime) (hv : ∀ d, untl = some d → d.valid = true)
+    (hu : untl.isSome = decide (k.1 = Gen.zonModeTEMPORARY))
+    (hp : f.payload = i ++ activeHex act ++ k.1.toList ++ "FFFFFF".toList ++ untilHex untl) :
+    p1F41 f = .ok (.dict ([("mode", Json.str k.2.toList)] ++ activeJson act ++
+      (match untl with | none => [] | some d => [("until", isoJson { d with second := 0 })]))) := by
+  have hk2 : k.1.toList.length = 2 := by
+    simp only [Gen.zonModeMap, List.mem_cons, List.not_mem_nil, or_false] at hk
+    rcases hk with h | h | h | h | h <;> subst h <;> rfl
+  have ha2 : (activeHex act).length = 2 := by cases act with | none => rfl | some b => cases b <;> rfl
+  have e_act : slice f.payload 2 4 = activeHex act := by
+    unfold slice; rw [hp]
+    have : (i ++ activeHex act ++ k.1.toList ++ "FFFFFF".toList ++ untilHex untl).take 4 = i ++ activeHex act := by
+      rw [List.append_assoc (i ++ activeHex act), List.append_assoc (i ++ activeHex act)]
+      exact List.take_left' (by simp [hi, ha2])
+    rw [this]; exact List.drop_left' hi
+  have e_m : slice f.payload 4 6 = k.1.toList := by
+    unfold slice; rw [hp]
+    have : (i ++ activeHex act ++ k.1.toList ++ "FFFFFF".toList ++ untilHex untl).take 6 = i ++ activeHex act ++ k.1.toList := by
+      rw [List.append_assoc (i ++ activeHex act ++ k.1.toList)]
+      exact List.take_left' (by simp [hi, ha2, hk2])
+    rw [this]; exact List.drop_left' (by simp [hi, ha2])
+  have e_f : slice f.payload 6 12 = s "FFFFFF" := by
+    unfold slice; rw [hp]
+    have : (i ++ activeHex act ++ k.1.toList ++ "FFFFFF".toList ++ untilHex untl).take 12 = i ++ activeHex act ++ k.1.toList ++ "FFFFFF".toList :=
+      List.take_left' (by simp [hi, ha2, hk2])
+    rw [this]; exact List.drop_left' (by simp [hi, ha2, hk2])
+  have hin : inS (Gen.zonModeMap.map (·.1)) k.1.toList = true := by
+    simp only [Gen.zonModeMap, List.mem_cons, List.not_mem_nil, or_false] at hk
+    rcases hk with h | h | h | h | h <;> subst h <;> decide
+  have hzm : zonMode k.1.toList = some k.2.toList := by
+    simp only [Gen.zonModeMap, List.mem_cons, List.not_mem_nil, or_false] at hk
+    rcases hk with h | h | h | h | h <;> subst h <;> decide
+  have hact : ∀ (r0 : Dict), (if activeHex act ≠ s "FF" then
+        (if activeHex act = s "00" then (Except.ok (r0 ++ [("active", Json.bool false)]) : Py Dict)
+         else if activeHex act = s "01" then Except.ok (r0 ++ [("active", Json.bool true)])
+         else Except.error .keyError)
+      else Except.ok r0) = .ok (r0 ++ activeJson act) := by
+    intro r0
+    cases act with
+    | none => simp [activeHex, activeJson, s]
+    | some b => cases b <;> simp [activeHex, activeJson, s]
+  unfold p1F41
+  simp only [e_m, e_f, e_act, hin, hzm, pyAssert, bind, Except.bind, pure, Except.pure, decide_true, if_true, throw, throwThe,
+    MonadExceptOf.throw]
+  by_cases ht : k.1 = Gen.zonModeTEMPORARY
+  · -- temporary: an until follows, 12 bytes
+    have hsome : untl.isSome = true := by rw [hu]; simp [ht]
+    obtain ⟨d, hd⟩ := Option.isSome_iff_exists.1 hsome
+    subst hd
+    have hU := hexFromDtm_nosecs_length (some d) hv
+    have hplen : f.payload.length = 24 := by
+      rw [hp]; simp only [List.length_append, hi, ha2, hk2, untilHex, hU]; rfl
+    have hbl : f.blen = 12 := by unfold Frame.blen; rw [hplen]
+    have e_u : slice f.payload 12 24 = hexFromDtm (some d) false false := by
+      unfold slice
+      rw [List.take_of_length_le (by omega), hp]
+      exact List.drop_left' (by simp [hi, ha2, hk2])
+    have hkt : k.1.toList = Gen.zonModeTEMPORARY.toList := by rw [ht]
+    simp only [hkt, hbl, decide_true, Bool.true_or, Bool.or_true, if_true, ne_eq, not_true_eq_false, decide_false, Bool.false_or, e_u]
+    rw [jDtm_roundtrip_nosecs d (hv d rfl)]
+    cases act with
+    | none => simp [activeHex, activeJson, s]
+    | some b => cases b <;> simp [activeHex, activeJson, s]
+  · have hnone : untl = none := by
+      cases untl with
+      | none => rfl
+      | some d => simp [ht] at hu
+    subst hnone
+    have hplen : f.payload.length = 12 := by
+      rw [hp]; simp only [List.length_append, hi, ha2, hk2, untilHex]; rfl
+    have hbl : f.blen = 6 := by unfold Frame.blen; rw [hplen]
+    have hkt : ¬ (k.1.toList = Gen.zonModeTEMPORARY.toList) := by
+      simp only [Gen.zonModeMap, List.mem_cons, List.not_mem_nil, or_false] at hk
+      rcases hk with h | h | h | h | h <;> subst h <;> first | decide | exact absurd rfl ht
+    simp only [hkt, hbl, decide_true, decide_false, Bool.false_or, Bool.or_true, Bool.true_or, if_true, ne_eq, not_false_eq_true, if_false]
+    cases act with
+    | none => simp [activeHex, activeJson, s]
+    | some b => cases b <;> simp [activeHex, activeJson, s]
+
 /-! ### mode / until / duration: what is refused -/
 
 /-- `temporary_override` needs an `until` and takes no `duration`: anything else is refused (W|1F41) -/
